@@ -18,14 +18,17 @@ LEVEL = "exploration"
 ENGINE = "ecu-groundtruth"
 TECHNIQUE = (
     "record/replay differential monitor: a real ECU client (gallia's ECU class or a vendor subclass of it with one more state attribute) with a real DBHandler "
-    "records request histories against ECU models (real RandomUDSServer in-process, scripted ECUs; some of them ignore the suppress bit) while the transport logs the raw reply bytes; the real DBUDSServer built from that database "
+    "records request histories against ECU models (real RandomUDSServer in-process, scripted ECUs; some of them ignore the suppress bit, some keep more than the session byte under 0xF186) while the transport logs the raw reply bytes; the real DBUDSServer built from that database "
     "as commands/script/vecu.py builds it is then fed the same requests through UDSServerTransport.handle_request and compared reply by "
     "reply and state by state with the recording"
 )
 LEVEL_TEXT = (
     "Exploration: generated histories of 5..60 requests (session changes, seed/key pairs with fresh seeds, resets, reads/writes/routines, "
-    "tester present, DTC services, suppressed requests, arbitrary bytes) against RandomUDSServer models (seeds x parameter sets) and "
-    "scripted ECUs (spontaneous session fallback, malformed, mismatching and missing replies); of every kind of ECU some ignore the suppressPosRspMsgIndicationBit for some or all "
+    "tester present, DTC services, suppressed requests, arbitrary bytes; the active session is read with 22 F186 alone or in one ReadDataByIdentifier together with other identifiers, "
+    "first, between or last) against RandomUDSServer models (seeds x parameter sets) and "
+    "scripted ECUs (spontaneous session fallback, malformed, mismatching and missing replies; they answer a read of several identifiers with the records of those they would answer singly, "
+    "and about 40 % of them keep a longer record under 0xF186: session byte, security level, 0..2 further bytes - so that the session number both sides derive from a session read has up to 8 bytes; a directed family of a few databases per run has session reads with 8..16 bytes behind 0xF186, "
+    "followed by two or more requests recorded in that state); of every kind of ECU some ignore the suppressPosRspMsgIndicationBit for some or all "
     "services and send the positive reply all the same (such requests are then also asked outside the default state and for session changes / resets / keys); about a third of the "
     "recordings is made by a vendor subclass of ECU (as load_ecu hands out) that tracks session and security level as the stock class does and keeps one more attribute in its state "
     "object (logged before or after the other two; constant or changing with the writes / routines of the history); databases with one recording (no selector, "
@@ -33,7 +36,8 @@ LEVEL_TEXT = (
     "target urls; the same url recorded twice; one ECU name referenced by two or three address rows - the same ECU recorded over two urls, or further addresses of a recorded ECU that a "
     "discovery run found before or after the recordings and nobody recorded over - so that the replayed sequence belongs to the first, a middle or the last address row of its name; address rows left by a discovery run and labelled with ECU names before the recordings start, "
     "plus addresses of ECUs never recorded), selected by ECU name (always when the file holds several recordings), by integer/null "
-    "properties, by string properties or both; family 'update': one ECU (one name, one url) recorded with two software generations (two runs whose properties_pre differ in "
+    "properties, by string properties or both; every property set also holds a bytes value (ECUProperties subclass with a bytes field: empty, up to 8, 9..16, 17..40 bytes; the values of the ECUs of one file "
+    "are distinct but often share their first 8..20 bytes) and about half of the recordings that such a value singles out are replayed once more selected by it (its hexadecimal digits); family 'update': one ECU (one name, one url) recorded with two software generations (two runs whose properties_pre differ in "
     "sw_version, in the nullable variant or in both, same state machine, other reply bytes, recorded in either order), optionally next to another ECU that carries the property "
     "set of one of the two runs, each run replayed with name AND properties (and with the properties alone when no other ECU carries them; never with the name alone). "
     "ECU names (any text is a name): per file either plain distinct names or names that are easily taken for one another - differing only in letter case, equal except where one has '_' "
@@ -48,7 +52,7 @@ LEVEL_NOTE = (
 RULE = (
     "cases = (ECU model or script [software generation], history seed, database layout incl. the class of ECU names, selector); one case = one record/replay pair; non-trivial = the recording "
     "leaves the default state or repeats a request with another answer; the recording client (stock / vendor subclass), the ECU's attitude to the suppress bit and the number of address rows per ECU name "
-    "are drawn per recording / per file from the history seed, not extra cases; distinct = distinct (history seed, layout, selector); "
+    "are drawn per recording / per file from the history seed, not extra cases; so are the bytes property values and the form of the ECU's 0xF186 record; distinct = distinct (history seed, layout, selector); "
     "distinct_traces = distinct (request kind, reply kind, client state) sequences; evaluations = replayed steps compared. After the first "
     "difference of a pair the rest of that replay is not judged (it is a consequence). A replay difference under selection by name is keyed replay/wrong-recording-selected/... "
     "when the file shows that a scan run points to the address row of another url than the one it was recorded against."
@@ -70,6 +74,16 @@ ASSUMPTIONS = [
     "address rows that exist before a recording starts come from gallia's own writers: DBHandler.insert_discovery_result of a discovery run in the same file, or an earlier recording of the same url",
     "every await on DBHandler / DBUDSServer has a 60 s wall-clock guard (such a step takes milliseconds). A DBHandler step of a recording that raises or does not return is reported as a "
     "violation (record/...: the recording is not in the database, so it cannot be replayed) and that recording is not replayed; only connect / insert_run_meta failing on a fresh file is a harness error",
+    "a bytes-valued property is named in a selector by its hexadecimal digits (lower case, no prefix; the empty value by the empty string), which is how ECUPropertiesEncoder is documented to write bytes; "
+    "selected by that text the run is replayed whatever the length of the value",
+    "session reads: ECU.update_state takes everything behind the first identifier of a positive ReadDataByIdentifier reply that starts with 0xF186 as one big-endian session number, and the statement "
+    "presupposes that the replaying server derives the same number; in the general workload the scripted ECUs refuse ReadDataByIdentifier replies of more than 11 bytes (0x14 responseTooLong, MAX_RDBI_REPLY), "
+    "so that number has at most 8 bytes and stays below 2**63. The range above is covered by the directed family 'long session record' (a handful of databases folded into the first scripted shard: "
+    "0xF186 first of several identifiers with 8..16 bytes behind it, or an ECU that keeps 9..12 bytes under 0xF186, then at least two requests recorded in that state, no suppressed requests): on the pinned "
+    "tree every request replayed in a state whose session number is outside the signed 64-bit range raises OverflowError (sqlite parameter binding) - the open known finding "
+    "replay/raises/OverflowError/session-number-beyond-sqlite-integer (key used only for an OverflowError while the logged session number is outside that range; any other raise keeps replay/raises/<type>)",
+    "an ECU recorded twice under one name (families multi/same-ECU and update) whose own 0xF186 record is the session byte alone is never asked for 0xF186 as the FIRST of several identifiers: the client "
+    "forgets the security level when the session number it reads changes, and with a one-byte record it could not tell the ECU's level afterwards (the assumption above on two recordings under one ECU name: the client sees the ECU's state completely)",
     "'clean' histories never provoke silence while the client is outside the default state and never suppress a session change or reset (asking an ECU that ignores the bit is not suppressing); 'any' histories do",
 ]
 EXHAUSTIVE = {"quick": False, "thorough": False}
@@ -86,7 +100,7 @@ def shards(tier: str, seed: int) -> list[dict[str, Any]]:
         for i in range(4):
             out.append({"family": "any", "base": f"q{seed}-a{i}", "n": 40})
         for i in range(3):
-            out.append({"family": "scripted", "base": f"q{seed}-s{i}", "n": 50})
+            out.append({"family": "scripted", "base": f"q{seed}-s{i}", "n": 50, "long_session_record": 8 if i == 0 else 0})
         for i in range(4):
             out.append({"family": "multi", "base": f"q{seed}-m{i}", "n": 20})
         for i in range(3):
@@ -97,7 +111,7 @@ def shards(tier: str, seed: int) -> list[dict[str, Any]]:
     for i in range(4):
         out.append({"family": "any", "base": f"t{seed}-a{i}", "n": 700})
     for i in range(2):
-        out.append({"family": "scripted", "base": f"t{seed}-s{i}", "n": 900})
+        out.append({"family": "scripted", "base": f"t{seed}-s{i}", "n": 900, "long_session_record": 120 if i == 0 else 0})
     for i in range(4):
         out.append({"family": "multi", "base": f"t{seed}-m{i}", "n": 250})
     for i in range(4):
@@ -148,6 +162,25 @@ def required_reach(tier: str) -> dict[str, int]:
         "replay-by-name.ecu-name-referenced-by-several-address-rows.other-address-recorded-over-too": 10 * k,
         "replay-by-name.ecu-name-referenced-by-several-address-rows.other-addresses-never-recorded-over": 10 * k,
         "scripted.fallback": 10 * k, "scripted.malformed-reply": 10 * k, "scripted.mismatching-reply": 10 * k, "#model:": 40,
+        # property sets with a bytes value of every length class, replayed selected by that value; other ECUs of the file whose value starts alike
+        **{f"db.bytes-property.value-{c}": 60 * k for c in ("empty", "up-to-8-bytes", "9-to-16-bytes", "longer-than-16-bytes")},
+        "select.bytes-properties": 150 * k, "replay-by-bytes-properties.value-empty": 20 * k, "replay-by-bytes-properties.value-up-to-8-bytes": 40 * k,
+        "replay-by-bytes-properties.value-9-to-16-bytes": 20 * k, "replay-by-bytes-properties.value-longer-than-16-bytes": 50 * k,
+        "db.several-ecus.bytes-property-values-share-first-8-bytes-or-more": 10 * k,
+        "replay-by-bytes-properties.other-ecu-value-shares-first-8-bytes-or-more": 8 * k,
+        "replay-by-bytes-properties.other-ecu-value-shares-first-8-bytes-or-more.and-answers-differently": 6 * k,
+        # the session read as one of several identifiers of a read; session reads answered with more than the one session byte (longer record of the ECU, or the
+        # records of the further identifiers), and requests recorded in the state the client derived from such a reply
+        "hist.read-of-several-identifiers": 300 * k, "hist.read-of-several-identifiers.answered-positively": 150 * k,
+        "hist.read-of-several-identifiers.session-identifier-first": 150 * k, "hist.read-of-several-identifiers.session-identifier-not-first": 150 * k,
+        "hist.session-read.one-byte-record": 600 * k, "hist.session-read.longer-record": 150 * k, "hist.session-read.longer-record.one-identifier-read": 100 * k,
+        "hist.session-read.longer-record.several-identifiers-read": 40 * k, "hist.session-read.longer-record.client-had-a-security-level": 15 * k,
+        "step.session-number-from-longer-record": 500 * k, "replay.history-has-session-read-with-longer-record": 100 * k,
+        "replay.history-has-session-read-with-longer-record.and-requests-recorded-in-that-state": 100 * k,
+        # directed family: session reads with a record of 8..16 bytes (0xF186 first of several identifiers / the ECU's own long record), at least two requests recorded after it
+        "directed.long-session-record": 6 * k, "directed.long-session-record.own-record": 3 * k, "directed.long-session-record.several-identifiers": 3 * k,
+        "directed.long-session-record.session-number-beyond-signed-64-bit.two-or-more-requests-recorded-in-that-state": 5 * k,
+        "directed.long-session-record.session-number-of-8-bytes.two-or-more-requests-recorded-in-that-state": 1 * k,
     }
 
 
@@ -155,10 +188,14 @@ def required_reach(tier: str) -> dict[str, int]:
 class Gen:
     """history generator: reads the ECU model's offered services when there is one, the wire for outstanding seeds"""
 
-    def __init__(self, rng: random.Random, clean: bool, pure: bool = False, pool: random.Random | None = None, answers_anyway: frozenset[int] = frozenset()):
+    def __init__(self, rng: random.Random, clean: bool, pure: bool = False, pool: random.Random | None = None, answers_anyway: frozenset[int] = frozenset(),
+                 session_first: bool = True):
         self.rng = rng
         self.clean = clean
         self.pure = pure  # never ask for suppression: the ECU's state stays what the client sees
+        # False: never put 0xF186 first in a read of several identifiers (an ECU recorded twice under one name whose own 0xF186 record does not tell
+        # the security level: the client, which forgets the level when the session number it reads changes, would lose sight of the ECU's state)
+        self.session_first = session_first
         self.answers_anyway = answers_anyway  # services for which this ECU ignores the suppress bit: asking for suppression never yields silence there
         pool = pool or rng
         self.dids = [pool.choice([0xF190, 0xF18C, 0x0100, 0x1234, pool.randrange(65536)]) for _ in range(5)]
@@ -170,6 +207,18 @@ class Gen:
             self.last_seed = (reply[1], reply[2:])
         elif q[:1] != b"\x3e":
             self.last_seed = None
+
+    def session_read(self) -> bytes:
+        """the active session identifier read on its own or (a legal ReadDataByIdentifier just as well) together with other identifiers, first, last or between them"""
+        rng = self.rng
+        if rng.random() >= 0.3:
+            return b"\x22\xf1\x86"
+        form = rng.random()
+        other = rng.choice(self.dids)
+        ids = [0xF186, other] if form < 0.6 else [other, 0xF186] if form < 0.8 else [0xF186, other, rng.choice(self.dids)] if form < 0.9 else [other, 0xF186, rng.choice(self.dids)]
+        if not self.session_first and ids[0] == 0xF186:
+            ids = [d for d in ids if d != 0xF186] + [0xF186]
+        return b"\x22" + b"".join(d.to_bytes(2, "big") for d in ids)
 
     def next(self, offered: dict[int, list[int] | None] | None, client_default: bool) -> bytes:
         rng = self.rng
@@ -198,7 +247,7 @@ class Gen:
             sf = rng.choice(((offered or {}).get(0x11) or [1]) + [1])
             return bytes([0x11, sf | spr(0.15, 0x11, True)])
         if k < 0.46:
-            return b"\x22\xf1\x86"
+            return self.session_read()
         if k < 0.60:
             return b"\x22" + rng.choice(self.dids).to_bytes(2, "big")
         if k < 0.68:
@@ -223,7 +272,8 @@ class Gen:
 class ScriptedECU:
     """An ECU that is not gallia's virtual ECU: session timer fallback, malformed / mismatching / missing replies."""
 
-    def __init__(self, rng: random.Random, flavour: str, dids: list[int], sw: int = 0, ignores: frozenset[int] = frozenset()):
+    def __init__(self, rng: random.Random, flavour: str, dids: list[int], sw: int = 0, ignores: frozenset[int] = frozenset(), rng_seed: str | None = None,
+                 directed: dict[str, Any] | None = None):
         self.rng = rng
         self.flavour = flavour
         self.ignores = ignores  # services whose suppressPosRspMsgIndicationBit this ECU ignores: it sends the positive reply all the same
@@ -235,6 +285,16 @@ class ScriptedECU:
         self.fallback_after = rng.randint(2, 6)
         self.odd = {d: rng.choice(["malformed", "mismatch", "silent"]) for d in dids[:3]} if flavour == "odd" else {}
         self.fallbacks = 0
+        # the data record this ECU keeps under 0xF186: the session byte alone (most ECUs), or the session byte followed by the security level and
+        # 0..2 further bytes (a property of the ECU; own generator: the other draws of this ECU stay what they were)
+        self.session_record_tail: bytes | None = session_record_tail(rng_seed) if rng_seed is not None else None
+        # directed family 'long session record': a larger transmit buffer, a long record under 0xF186 itself or under another identifier
+        self.max_reply = MAX_RDBI_REPLY
+        self.long_dids: dict[int, bytes] = {}
+        if directed is not None:
+            self.max_reply = 64
+            self.session_record_tail = directed.get("session_record_tail")
+            self.long_dids = dict(directed.get("long_dids", {}))
 
     async def __call__(self, q: bytes) -> list[bytes]:
         r = self.answer(q)
@@ -281,10 +341,23 @@ class ScriptedECU:
             else:
                 self.seed = None
                 return bytes([0x7F, 0x27, 0x35 if len(q) > 2 else 0x24])
+        elif sid == 0x22 and len(q) >= 5 and len(q) % 2 == 1:
+            # several identifiers in one read: the records of those this ECU would answer positively on their own, in the order asked;
+            # 0x31 if there is none, 0x14 if they do not fit the transmit buffer
+            reply = b"\x62"
+            for k in range(1, len(q), 2):
+                rec = self.record(int.from_bytes(q[k : k + 2], "big"))
+                if rec is not None:
+                    reply += q[k : k + 2] + rec
+            if len(reply) == 1:
+                return b"\x7f\x22\x31"
+            return reply if len(reply) <= self.max_reply else b"\x7f\x22\x14"
         elif sid == 0x22 and len(q) == 3:
             did = int.from_bytes(q[1:3], "big")
+            if did in self.long_dids:
+                return b"\x62" + q[1:3] + self.long_dids[did]
             if did == 0xF186:
-                return bytes([0x62, 0xF1, 0x86, self.session])
+                return bytes([0x62, 0xF1, 0x86]) + self.session_record()
             kind = self.odd.get(did)
             if kind == "malformed":
                 return self.rng.choice([b"\x62" + q[1:2], b"\x7f\x22", b"\x62"])
@@ -306,6 +379,60 @@ class ScriptedECU:
         else:
             return bytes([0x7F, sid, 0x11])
         return None if (sup and sid not in self.ignores) else pos
+
+
+    def session_record(self) -> bytes:
+        if self.session_record_tail is None:
+            return bytes([self.session])
+        return bytes([self.session, self.level or 0]) + self.session_record_tail
+
+    def record(self, did: int) -> bytes | None:
+        """the data record of one identifier within a read of several; None = this ECU does not answer it positively in its present state"""
+        if did == 0xF186:
+            return self.session_record()
+        if did in self.long_dids:
+            return self.long_dids[did]
+        if did in self.odd or (self.session == 1 and did & 1) or (self.sw and did & 4 and self.level is None):
+            return None
+        return bytes([self.session, self.level or 0, did & 0xFF]) + (b"SW" + bytes([self.sw]) if self.sw else b"")
+
+
+# Transmit buffer of the scripted ECUs for ReadDataByIdentifier replies (longer ones are refused with responseTooLong): 0x62 + identifier + 8 bytes.
+# gallia attributes everything behind the first identifier to the first data record, and ECU.update_state reads the record of 0xF186 as one
+# big-endian number: with 8 bytes (first of them a session byte <= 0x7F) that number stays below 2**63.  See ASSUMPTIONS.
+MAX_RDBI_REPLY = 11
+
+
+def session_record_tail(ecu_seed: str, p: float = 0.4) -> bytes | None:
+    r = random.Random(f"{ecu_seed}/session-record")
+    if r.random() >= p:
+        return None
+    return r.choice([b"", b"", b"\x00", b"\xa5", bytes([r.randrange(256)]), bytes([r.randrange(256), r.randrange(256)])])
+
+
+# Directed family 'long session record' (a handful of databases per run): the number the client derives from a session read has 8..16 bytes,
+# i.e. (from 9 bytes on) lies beyond the signed 64-bit range; at least two requests are recorded in that state.
+LONG_MARK = "/long-session-record/"
+
+
+def long_session_record_case(hseed: str, dids: list[int]) -> dict[str, Any]:
+    r = random.Random(hseed + "/directed")
+    i = int(hseed.split(LONG_MARK)[1].split("/")[0])  # hseed: <base>/long-session-record/<i>[/req/<j>]
+    at = r.randint(1, 8)
+    if i % 2:
+        # the ECU keeps 9..12 bytes under 0xF186 itself (session byte, security level, further bytes)
+        total = r.randint(9, 12)
+        cfg: dict[str, Any] = {"form": "own-record", "session_record_tail": r.randbytes(total - 2), "read": b"\x22\xf1\x86"}
+    else:
+        # 0xF186 first of several identifiers: the records of the others follow the session byte (8 bytes in every other case: the largest that fits)
+        total = 8 if i % 4 == 0 else r.randint(9, 16)
+        other = r.choice([0xF190, 0xF18C, 0xF190])
+        cfg = {"form": "several-identifiers", "session_record_tail": None, "long_dids": {other: r.randbytes(total - 3)}, "read": b"\x22\xf1\x86" + other.to_bytes(2, "big")}
+    # requests that leave session and security level alone
+    quiet = [b"\x22" + d.to_bytes(2, "big") for d in dids if d != 0xF186] + [b"\x3e\x00", b"\x31\x01\x12\x34", b"\x2e" + dids[0].to_bytes(2, "big") + b"\x00"]
+    cfg["forced"] = {at: cfg["read"], **{at + k: r.choice(quiet) for k in range(1, r.randint(3, 5))}}
+    cfg["record_bytes"] = total
+    return cfg
 
 
 SUPPRESSIBLE = [0x10, 0x11, 0x27, 0x31, 0x3E]
@@ -422,7 +549,16 @@ class Recorder:
         pure = ecu_kind[0] == "script" and ecu_kind[2] == "pure"
         rec.ignores = ignored_suppress_bits(str(ecu_kind[1]), 0.3 if ecu_kind[0] == "rng" else 0.4 if pure else 0.5)
         rec.client = vendor_client_kind(f"{hseed}|{rec.target}|{rec.model_id}")
-        self.gen = Gen(self.rng, clean, pure=pure, pool=random.Random(pool_seed) if pool_seed else None, answers_anyway=rec.ignores)
+        own_record_tells_level = ecu_kind[0] == "script" and session_record_tail(str(ecu_kind[1])) is not None
+        self.directed: dict[str, Any] | None = None
+        if LONG_MARK in hseed:
+            pure = True  # no suppressed requests: the replay gets as far as the long session read (a recorded silence makes the replaying server reset, a known finding of its own)
+        self.gen = Gen(self.rng, clean, pure=pure, pool=random.Random(pool_seed) if pool_seed else None, answers_anyway=rec.ignores,
+                       session_first=not pure or own_record_tells_level)
+        if LONG_MARK in hseed:
+            self.directed = long_session_record_case(hseed, self.gen.dids)
+            self.length = max(self.length, max(self.directed["forced"]) + 2)
+            rec.info["long_session_record"] = {k: v for k, v in self.directed.items() if k in ("form", "record_bytes")}
         self.handler: Any = None
         self.ecu: Any = None
         self.tr: Any = None
@@ -472,7 +608,7 @@ class Recorder:
             self.tr = dh.ResponderTransport(responder)
         else:
             self.script = ScriptedECU(random.Random(f"{self.ecu_kind[1]}"), self.ecu_kind[2], self.gen.dids, sw=self.ecu_kind[3] if len(self.ecu_kind) > 3 else 0,
-                                      ignores=self.rec.ignores)
+                                      ignores=self.rec.ignores, rng_seed=str(self.ecu_kind[1]), directed=self.directed)
             self.tr = dh.ResponderTransport(self.script)
         self.ecu = make_client(self.tr, self.handler, self.rec.client)
 
@@ -487,6 +623,8 @@ class Recorder:
             srv = self.driver.server
             offered = {int(k): v for k, v in srv.services.get(srv.state.session, {}).items()}
         q = self.gen.next(offered, st.session == 1 and st.security_access_level is None)
+        if self.directed is not None:
+            q = self.directed["forced"].get(len(self.rec.requests), q)
         err = None
         t0 = time.monotonic()
         try:
@@ -568,7 +706,9 @@ def reply_kind(q: bytes, r: bytes | None) -> str:
     if r[0] != (q[0] + 0x40) & 0xFF:
         return "mismatching-reply"
     if r[0] == 0x62 and r[1:3] == b"\xf1\x86":
-        return "session-read"
+        # what follows the first identifier is (to gallia) the data record of that identifier: one session byte, or more (the ECU's own longer record,
+        # or the records of the further identifiers of the read)
+        return "session-read" if len(r) <= 4 else "session-read-with-longer-record"
     return {"session": "session-change", "reset": "reset", "security": "security-access"}.get(d["kind"], "other-positive-reply")
 
 
@@ -596,6 +736,9 @@ def judge(ctx: Any, rec: Recording, rows: list[dict[str, Any]], out: list[tuple[
         if isinstance(got, Exception):
             malformed = want is not None and iso.decode_response(want) is None
             key = "replay/raises/malformed-recorded-reply" if malformed else f"replay/raises/{type(got).__name__}"
+            logged_session = rec.client_states[i - 1]["session"] if i else 1  # the state this request was logged with
+            if isinstance(got, OverflowError) and isinstance(logged_session, int) and not -(2**63) <= logged_session < 2**63:
+                key = "replay/raises/OverflowError/session-number-beyond-sqlite-integer"
             ctx.violation(key, "the replaying server raises while answering (a TCP server would drop the connection) instead of sending the recorded bytes",
                           witness(i, {"request": q, "recorded": want, "error": repr(got)[:300]}))
             held = False
@@ -615,6 +758,8 @@ def judge(ctx: Any, rec: Recording, rows: list[dict[str, Any]], out: list[tuple[
                 cause = "another-rows-reply"
             if selector == "string-properties" and got is None and all(o[0] is None for o in out):
                 cause = "string-property-selects-nothing"
+            if selector == "bytes-properties" and got is None and all(o[0] is None for o in out):
+                cause = f"bytes-property-selects-nothing/value-{length_class(rec.props[BYTES_PROPERTY])}"
             detail = {"request": q, "recorded": want, "replayed": got, "row_response_pdu": row["response_pdu"] if row else None, "rows": len(rows), "warnings": rec.lost[:3]}
             # diagnosis only (the key does not depend on it): which other recordings of the file hold the replayed reply for this request
             served = [{"ecu_name": o.name, "properties": o.props, "scan_run": o.scan_run} for o in (others or []) if any(q2 == q and r2 == got for q2, r2 in zip(o.requests, o.replies))]
@@ -632,7 +777,7 @@ def judge(ctx: Any, rec: Recording, rows: list[dict[str, Any]], out: list[tuple[
                                           "scan_runs_of_other_targets_attached_to_this_address": [r for r, _ in rec.foreign_runs]}))
                 held = False
                 break
-            ctx.violation(f"replay/reply-differs/{cause}/select-{selector}" if cause != "string-property-selects-nothing" else f"replay/reply-differs/{cause}",
+            ctx.violation(f"replay/reply-differs/{cause}/select-{selector}" if "-property-selects-nothing" not in cause else f"replay/reply-differs/{cause}",
                           "the replayed reply differs from the recorded bytes although both state trackers agreed before this request", witness(i, detail))
             held = False
             break
@@ -654,6 +799,7 @@ def survey(ctx: Any, rec: Recording) -> bool:
     left_default = False
     other_answer = False
     trace = []
+    long_reads = 0
     prev = {"session": 1, "security_access_level": None}
     for q, r, s in zip(rec.requests, rec.replies, rec.client_states):
         k = reply_kind(q, r)
@@ -666,6 +812,24 @@ def survey(ctx: Any, rec: Recording) -> bool:
             ctx.reach("hist.seed-key-success")
         if q[0] in (0x2E, 0x31, 0x2F) and r is not None and r[0] != 0x7F:
             ctx.reach("hist.write-or-routine")
+        if q[0] == 0x22 and len(q) >= 5 and len(q) % 2 == 1:
+            ctx.reach("hist.read-of-several-identifiers")
+            if q[1:3] == b"\xf1\x86":
+                ctx.reach("hist.read-of-several-identifiers.session-identifier-first")
+            elif b"\xf1\x86" in [q[n : n + 2] for n in range(1, len(q), 2)]:
+                ctx.reach("hist.read-of-several-identifiers.session-identifier-not-first")
+            if r is not None and r[0] == 0x62:
+                ctx.reach("hist.read-of-several-identifiers.answered-positively")
+        if k == "session-read":
+            ctx.reach("hist.session-read.one-byte-record")
+        if k == "session-read-with-longer-record":
+            long_reads += 1
+            ctx.reach("hist.session-read.longer-record")
+            ctx.reach("hist.session-read.longer-record." + ("several-identifiers-read" if len(q) > 3 else "one-identifier-read"))
+            if s["session"] != prev["session"] and prev["security_access_level"] is not None:
+                ctx.reach("hist.session-read.longer-record.client-had-a-security-level")
+        if s["session"] > 0xFF:
+            ctx.reach("step.session-number-from-longer-record")
         if r is None:
             ctx.reach("hist.recorded-silence")
             if prev["session"] != 1 or prev["security_access_level"] is not None:
@@ -693,6 +857,7 @@ def survey(ctx: Any, rec: Recording) -> bool:
             left_default = True
         prev = s
     ctx.trace(tuple(trace))
+    rec.info["session_reads_with_longer_record"] = long_reads
     return left_default or other_answer
 
 
@@ -793,6 +958,38 @@ NAME_RELATIONS = [("differs-only-in-case", differs_only_in_case), ("equal-but-fo
                   ("equal-but-for-percent-signs", equal_but_for_percent_signs)]
 
 
+# ---- bytes-valued properties ------------------------------------------------------------------------------
+# ECUProperties subclasses may carry bytes (ECUPropertiesEncoder: bytes are written as their hexadecimal digits): a serial number, a VIN read
+# as raw bytes.  Every ECU of a file gets one such value: empty, a few bytes, or longer; values of different ECUs of one file are distinct but
+# may share their first bytes (one may be the beginning of another).
+BYTES_PROPERTY = "serial_number"
+
+
+def bytes_property_values(rng: random.Random, ecu_ids: list[int]) -> dict[int, bytes]:
+    base = rng.randbytes(40) if rng.random() < 0.5 else b"WVWZZZ1KZAW" + rng.randbytes(29)
+    shared = rng.choice([0, 0, 8, 10, 12, 16, 20]) if len(ecu_ids) > 1 else 0
+    out: dict[int, bytes] = {}
+    for jj in ecu_ids:
+        while True:
+            n = rng.choice([0, rng.randint(1, 8), rng.randint(9, 16), 17, rng.randint(17, 40), shared + rng.randint(0, 4)])
+            v = (base[:shared] + rng.randbytes(40))[:n]
+            if v not in out.values():
+                break
+        out[jj] = v
+    return out
+
+
+def length_class(v: bytes) -> str:
+    return "empty" if not v else "up-to-8-bytes" if len(v) <= 8 else "9-to-16-bytes" if len(v) <= 16 else "longer-than-16-bytes"
+
+
+def common_prefix(a: bytes, b: bytes) -> int:
+    n = 0
+    while n < min(len(a), len(b)) and a[n] == b[n]:
+        n += 1
+    return n
+
+
 # ---- one database ---------------------------------------------------------------------------------------
 async def one_database(ctx: Any, family: str, hseed: str, path: Path, catch: dh.Catcher) -> None:
     rng = random.Random(hseed + "/layout")
@@ -801,7 +998,7 @@ async def one_database(ctx: Any, family: str, hseed: str, path: Path, catch: dh.
     same_ecu = family == "multi" and rng.random() < 0.4
     nrec = 1 if not several else 2 if same_ecu else rng.choice([2, 3, 3]) if update else rng.choice([2, 2, 3])
     interleaved = several and rng.random() < 0.35
-    clean = family in ("clean", "multi", "update")
+    clean = family in ("clean", "multi", "update") or LONG_MARK in hseed
     recs: list[Recording] = []
     recorders: list[Recorder] = []
     share = several and rng.random() < 0.8
@@ -816,6 +1013,9 @@ async def one_database(ctx: Any, family: str, hseed: str, path: Path, catch: dh.
     # fourth layout stream: ECU names referenced by more than one address row (docs/uds/virtual_ecu.md: the name is "referenced in one or more addresses"):
     # the ECU was reached over two target urls (two recordings), or a second address of it is known (discovery run) and was never recorded over
     rng4 = random.Random(hseed + "/addresses")
+    # fifth layout stream: the bytes-valued property of every ECU of the file, and which recordings are also replayed by it
+    rng5 = random.Random(hseed + "/bytes-property")
+    serials = bytes_property_values(rng5, ecu_ids)
     two_urls = (same_ecu and rng4.random() < 0.5) or (update and rng4.random() < 0.3)
     for j in range(nrec):
         if update:
@@ -828,6 +1028,8 @@ async def one_database(ctx: Any, family: str, hseed: str, path: Path, catch: dh.
             model_id = "script:pure"
         elif family == "scripted":
             flavour = rng.choice(["fallback", "odd", "plain"])
+            if LONG_MARK in hseed:
+                flavour = "plain"
             kind = ("script", f"{hseed}/{j}", flavour)
             model_id = f"script:{flavour}"
         else:
@@ -838,6 +1040,7 @@ async def one_database(ctx: Any, family: str, hseed: str, path: Path, catch: dh.
         ctx.reach(f"model:{model_id}" if kind[0] == "script" else f"model:rng:{kind[2]}:{zlib.crc32(str(kind[1]).encode()) % 16}")
         jj = 0 if same_ecu or (update and j < 2) else j
         props = {"sw_version": 100 + jj, "variant": None if jj % 2 == 0 else jj, "vin": f"VIN{hseed}#{jj}", "hw": "A" if same_ecu else rng.choice(["A", "B"])}
+        props[BYTES_PROPERTY] = serials[jj]
         if update and j == 1:
             if differs in ("sw_version", "both"):
                 props["sw_version"] = 101
@@ -977,7 +1180,18 @@ async def one_database(ctx: Any, family: str, hseed: str, path: Path, catch: dh.
         if any(len({tuple(r.replies[i] for i, q in enumerate(r.requests) if q == c)[:1] for r in recs}) > 1 for c in common):
             ctx.reach("db.other-recording-shares-requests")
     ctx.reach(f"family.{family}")
+    if LONG_MARK in hseed and recs[0].failed is None:
+        lk = "directed.long-session-record"
+        ctx.reach(lk)
+        ctx.reach(f"{lk}.{recs[0].info['long_session_record']['form']}")
+        in_state = [st["session"] for st in recs[0].client_states[:-1]]
+        if sum(1 for n in in_state if not -(2**63) <= n < 2**63) >= 2:
+            ctx.reach(f"{lk}.session-number-beyond-signed-64-bit.two-or-more-requests-recorded-in-that-state")
+        elif sum(1 for n in in_state if n >= 2**56) >= 2:
+            ctx.reach(f"{lk}.session-number-of-8-bytes.two-or-more-requests-recorded-in-that-state")
     ctx.reach(f"db.ecu-names.{name_class}")
+    if any(common_prefix(serials[a], serials[b]) >= 8 for a in ecu_ids for b in ecu_ids if a < b):
+        ctx.reach("db.several-ecus.bytes-property-values-share-first-8-bytes-or-more")
     if len(ecu_ids) > 1:
         ctx.reach(f"db.several-ecus.ecu-names.{name_class}")
     recorded_at = {id(r.rec): n for n, r in enumerate(recorders)}
@@ -987,6 +1201,7 @@ async def one_database(ctx: Any, family: str, hseed: str, path: Path, catch: dh.
             continue  # nothing (reliable) was recorded: a replay difference would only be a consequence
         rows = dh.read_rows(path, rec.scan_run)
         nontrivial = survey(ctx, rec)
+        ctx.reach(f"db.bytes-property.value-{length_class(rec.props[BYTES_PROPERTY])}")
         if rec.client is None:
             ctx.reach("client.stock-ecu-class")
         else:
@@ -1008,6 +1223,7 @@ async def one_database(ctx: Any, family: str, hseed: str, path: Path, catch: dh.
         case = {"family": family, "hseed": hseed, "recordings": nrec, "interleaved": interleaved, "same_ecu_twice": same_ecu, "discovery_run_first": discovery,
                 "recording": j, "model": rec.model_id, "length": len(rec.requests), "nontrivial": nontrivial,
                 "ecu_names_in_file": sorted({o.name for o in recs}), "target": rec.target,
+                "properties_pre_in_file": (dh.sql(path, "SELECT properties_pre FROM scan_run WHERE id = ?", (rec.scan_run,)) or [(None,)])[0][0],
                 "address_rows_of_this_ecu_name": [[aid, url, f"{runs} scan runs"] for aid, url, runs in addresses_of.get(rec.name, [])]}
         if update:
             case.update({"software_update": True, "update_changed_properties": differs, "other_ecu_has_properties_of_recording": shares_with,
@@ -1043,6 +1259,17 @@ async def one_database(ctx: Any, family: str, hseed: str, path: Path, catch: dh.
             selectors.append((extra, None, None))
         if nrec > 1 and not any(sel in ("name", "name+properties") for sel, _, _ in selectors):
             selectors.append(("name", None, None))  # several recordings in one file: the scan_run -> address -> ecu join is always exercised
+        if not twins and rng5.random() < 0.5:
+            # the bytes-valued property singles out this ECU (all runs of its name answer alike): replayed by it as well
+            selectors.append(("bytes-properties", None, None))
+            mine_b = rec.props[BYTES_PROPERTY]
+            ctx.reach(f"replay-by-bytes-properties.value-{length_class(mine_b)}")
+            for o in recs:
+                if o.name != rec.name and common_prefix(o.props[BYTES_PROPERTY], mine_b) >= 8:
+                    ctx.reach("replay-by-bytes-properties.other-ecu-value-shares-first-8-bytes-or-more")
+                    if o.failed is None and answered_otherwise(rec, o):
+                        ctx.reach("replay-by-bytes-properties.other-ecu-value-shares-first-8-bytes-or-more.and-answers-differently")
+                    break
         by_name = [sel for sel, _, _ in selectors if sel in ("name", "name+properties")]
         mine = addresses_of.get(rec.name, [])
         if by_name and len(mine) > 1 and any(url == rec.target for _, url, _ in mine):
@@ -1081,6 +1308,8 @@ async def one_database(ctx: Any, family: str, hseed: str, path: Path, catch: dh.
                 props = {"sw_version": rec.props["sw_version"], "variant": rec.props["variant"]}
             elif sel == "string-properties":
                 props = {"vin": rec.props["vin"]}
+            elif sel == "bytes-properties":
+                props = {BYTES_PROPERTY: rec.props[BYTES_PROPERTY].hex()}
             out = await replay_recording(path, name, props, rec.requests)
             if rec.client is not None:
                 ctx.reach("replay.recorded-by-vendor-ecu-class")
@@ -1088,6 +1317,10 @@ async def one_database(ctx: Any, family: str, hseed: str, path: Path, catch: dh.
                     ctx.reach("replay.recorded-by-vendor-ecu-class.non-trivial")
             if answered_anyway:
                 ctx.reach("replay.ecu-ignores-suppress-bit.and-history-has-such-a-reply")
+            if rec.info.get("session_reads_with_longer_record"):
+                ctx.reach("replay.history-has-session-read-with-longer-record")
+                if any(s["session"] > 0xFF for s in rec.client_states[:-1]):
+                    ctx.reach("replay.history-has-session-read-with-longer-record.and-requests-recorded-in-that-state")
             ctx.case((hseed, j, sel, nrec, interleaved), nontrivial=nontrivial, n=0)
             judge(ctx, rec, rows, out, case, sel, [o for o in recs if o is not rec])
         if ctx.rng.random() < 0.03:
@@ -1099,6 +1332,9 @@ async def arun(ctx: Any, params: dict[str, Any], only: str | None = None) -> Non
     catch = dh.install_catcher()
     scratch = ctx.mkscratch()
     seeds = [only] if only else [f"{params['base']}/{i}" for i in range(params["n"])]
+    if not only:
+        # directed family (folded into this shard, run first): session reads whose data record has 8..16 bytes
+        seeds = [f"{params['base']}{LONG_MARK}{i}" for i in range(params.get("long_session_record", 0))] + seeds
     for n, hseed in enumerate(seeds):
         if ctx.out_of_time():
             break
